@@ -205,6 +205,9 @@ Definition m_Server_on_att_request : list string := [
 (* Server.on_att_exchange_mtu_request *)
 Definition m_Server_on_att_exchange_mtu_request : list string := [
   "def on_att_exchange_mtu_request(self, bearer, request):";
+  "    if att.is_enhanced_bearer(bearer):";
+  "        self.on_att_request(bearer, request)";
+  "        return";
   "    self.send_response(bearer, att.ATT_Exchange_MTU_Response(server_rx_mtu=self.max_mtu))";
   "    if request.client_rx_mtu >= att.ATT_DEFAULT_MTU:";
   "        mtu = min(self.max_mtu, request.client_rx_mtu)";
@@ -476,6 +479,181 @@ Definition m_Server_on_att_handle_value_confirmation : list string := [
   "    pending_confirmation.set_result(None)"
 ].
 
+(* LeCreditBasedChannel.__init__ *)
+Definition m_LeCreditBasedChannel__init : list string := [
+  "def __init__(self, manager, connection, psm, source_cid, destination_cid, mtu, mps, credits, peer_mtu, peer_mps, peer_credits, connected):";
+  "    super().__init__()";
+  "    self.manager = manager";
+  "    self.connection = connection";
+  "    self.psm = psm";
+  "    self.source_cid = source_cid";
+  "    self.destination_cid = destination_cid";
+  "    self.mtu = mtu";
+  "    self.mps = mps";
+  "    self.credits = credits";
+  "    self.peer_mtu = peer_mtu";
+  "    self.peer_mps = peer_mps";
+  "    self.peer_credits = peer_credits";
+  "    self.peer_max_credits = self.peer_credits";
+  "    self.peer_credits_threshold = self.peer_max_credits // 2";
+  "    self.in_sdu = None";
+  "    self.in_sdu_length = 0";
+  "    self.out_queue = deque()";
+  "    self.out_sdu = None";
+  "    self.sink = None";
+  "    self.connected = False";
+  "    self.connection_result = None";
+  "    self.disconnection_result = None";
+  "    self.drained = asyncio.Event()";
+  "    self.att_mtu = min(mtu, peer_mtu)";
+  "    self.drained.set()";
+  "    if connected:";
+  "        self.state = self.State.CONNECTED";
+  "    else:";
+  "        self.state = self.State.INIT"
+].
+
+(* LeCreditBasedChannel.on_connection_response *)
+Definition m_LeCreditBasedChannel_on_connection_response : list string := [
+  "def on_connection_response(self, response):";
+  "    if self.connection_result is None:";
+  "        return";
+  "    result = response.result";
+  "    if result == L2CAP_LE_Credit_Based_Connection_Response.Result.CONNECTION_SUCCESSFUL and (not _credit_based_parameters_acceptable(response.mtu, response.mps)):";
+  "        result = L2CAP_LE_Credit_Based_Connection_Response.Result.CONNECTION_REFUSED_UNACCEPTABLE_PARAMETERS";
+  "    if result == L2CAP_LE_Credit_Based_Connection_Response.Result.CONNECTION_SUCCESSFUL:";
+  "        self.destination_cid = response.destination_cid";
+  "        self.peer_mtu = response.mtu";
+  "        self.peer_mps = response.mps";
+  "        self.credits = response.initial_credits";
+  "        self.connected = True";
+  "        self.connection_result.set_result(self)";
+  "        self._change_state(self.State.CONNECTED)";
+  "    else:";
+  "        self.connection_result.set_exception(L2capError(result, L2CAP_LE_Credit_Based_Connection_Response.Result(result).name))";
+  "        self._change_state(self.State.CONNECTION_ERROR)";
+  "    self.connection_result = None"
+].
+
+(* LeCreditBasedChannel.on_enhanced_connection_response *)
+Definition m_LeCreditBasedChannel_on_enhanced_connection_response : list string := [
+  "def on_enhanced_connection_response(self, destination_cid, response):";
+  "    if response.result == L2CAP_Credit_Based_Connection_Response.Result.ALL_CONNECTIONS_SUCCESSFUL:";
+  "        self.destination_cid = destination_cid";
+  "        self.peer_mtu = response.mtu";
+  "        self.peer_mps = response.mps";
+  "        self.credits = response.initial_credits";
+  "        self.connected = True";
+  "        self._change_state(self.State.CONNECTED)";
+  "    else:";
+  "        self._change_state(self.State.CONNECTION_ERROR)"
+].
+
+(* LeCreditBasedChannel.on_att_mtu_update *)
+Definition m_LeCreditBasedChannel_on_att_mtu_update : list string := [
+  "def on_att_mtu_update(self, mtu):";
+  "    self.att_mtu = mtu";
+  "    self.emit(self.EVENT_ATT_MTU_UPDATE, mtu)"
+].
+
+(* LeCreditBasedChannel.write *)
+Definition m_LeCreditBasedChannel_write : list string := [
+  "def write(self, data):";
+  "    if self.state != self.State.CONNECTED:";
+  "        return";
+  "    self.out_queue.append(data)";
+  "    self.drained.clear()";
+  "    self.process_output()"
+].
+
+(* LeCreditBasedChannel.process_output *)
+Definition m_LeCreditBasedChannel_process_output : list string := [
+  "def process_output(self):";
+  "    while self.credits > 0:";
+  "        if self.out_sdu is not None:";
+  "            packet = self.out_sdu[:self.peer_mps]";
+  "            self.send_pdu(packet)";
+  "            self.credits -= 1";
+  "            if len(packet) == len(self.out_sdu):";
+  "                self.out_sdu = None";
+  "            else:";
+  "                self.out_sdu = self.out_sdu[len(packet):]";
+  "            continue";
+  "        if self.out_queue:";
+  "            payload = b''";
+  "            while self.out_queue and len(payload) < self.peer_mtu:";
+  "                chunk = self.out_queue[0][:self.peer_mtu - len(payload)]";
+  "                payload += chunk";
+  "                self.out_queue[0] = self.out_queue[0][len(chunk):]";
+  "                if len(self.out_queue[0]) == 0:";
+  "                    self.out_queue.popleft()";
+  "            assert len(payload) != 0";
+  "            self.out_sdu = struct.pack('<H', len(payload)) + payload";
+  "        else:";
+  "            self.drained.set()";
+  "            return"
+].
+
+(* ChannelManager.on_l2cap_le_credit_based_connection_request *)
+Definition m_ChannelManager_on_l2cap_le_credit_based_connection_request : list string := [
+  "def on_l2cap_le_credit_based_connection_request(self, connection, cid, request):";
+  "    if not (server := self.le_coc_servers.get(request.le_psm)):";
+  "        self.send_control_frame(connection, cid, L2CAP_LE_Credit_Based_Connection_Response(identifier=request.identifier, destination_cid=0, mtu=L2CAP_LE_CREDIT_BASED_CONNECTION_DEFAULT_MTU, mps=L2CAP_LE_CREDIT_BASED_CONNECTION_DEFAULT_MPS, initial_credits=0, result=L2CAP_LE_Credit_Based_Connection_Response.Result.CONNECTION_REFUSED_LE_PSM_NOT_SUPPORTED))";
+  "        return";
+  "    if request.mtu < L2CAP_LE_CREDIT_BASED_CONNECTION_MIN_MTU or request.mps < L2CAP_LE_CREDIT_BASED_CONNECTION_MIN_MPS or request.mps > L2CAP_LE_CREDIT_BASED_CONNECTION_MAX_MPS:";
+  "        self.send_control_frame(connection, cid, L2CAP_LE_Credit_Based_Connection_Response(identifier=request.identifier, destination_cid=0, mtu=server.mtu, mps=server.mps, initial_credits=0, result=L2CAP_LE_Credit_Based_Connection_Response.Result.CONNECTION_REFUSED_UNACCEPTABLE_PARAMETERS))";
+  "        return";
+  "    le_connection_channels = self.le_coc_channels.setdefault(connection.handle, {})";
+  "    if request.source_cid in le_connection_channels:";
+  "        self.send_control_frame(connection, cid, L2CAP_LE_Credit_Based_Connection_Response(identifier=request.identifier, destination_cid=0, mtu=server.mtu, mps=server.mps, initial_credits=0, result=L2CAP_LE_Credit_Based_Connection_Response.Result.CONNECTION_REFUSED_SOURCE_CID_ALREADY_ALLOCATED))";
+  "        return";
+  "    connection_channels = self.channels.setdefault(connection.handle, {})";
+  "    source_cid = self.find_free_le_cid(connection_channels)";
+  "    if source_cid is None:";
+  "        self.send_control_frame(connection, cid, L2CAP_LE_Credit_Based_Connection_Response(identifier=request.identifier, destination_cid=0, mtu=server.mtu, mps=server.mps, initial_credits=0, result=L2CAP_LE_Credit_Based_Connection_Response.Result.CONNECTION_REFUSED_NO_RESOURCES_AVAILABLE))";
+  "        return";
+  "    channel = LeCreditBasedChannel(self, connection, request.le_psm, source_cid, request.source_cid, server.mtu, server.mps, request.initial_credits, request.mtu, request.mps, server.max_credits, True)";
+  "    connection_channels[source_cid] = channel";
+  "    le_connection_channels[request.source_cid] = channel";
+  "    self.send_control_frame(connection, cid, L2CAP_LE_Credit_Based_Connection_Response(identifier=request.identifier, destination_cid=source_cid, mtu=server.mtu, mps=server.mps, initial_credits=server.max_credits, result=L2CAP_LE_Credit_Based_Connection_Response.Result.CONNECTION_SUCCESSFUL))";
+  "    server.on_connection(channel)"
+].
+
+(* ChannelManager.on_l2cap_credit_based_connection_request *)
+Definition m_ChannelManager_on_l2cap_credit_based_connection_request : list string := [
+  "def on_l2cap_credit_based_connection_request(self, connection, cid, request):";
+  "    if not (server := self.le_coc_servers.get(request.spsm)):";
+  "        self.send_control_frame(connection, cid, L2CAP_Credit_Based_Connection_Response(identifier=request.identifier, destination_cid=[], mtu=L2CAP_LE_CREDIT_BASED_CONNECTION_DEFAULT_MTU, mps=L2CAP_LE_CREDIT_BASED_CONNECTION_DEFAULT_MPS, initial_credits=0, result=L2CAP_Credit_Based_Connection_Response.Result.ALL_CONNECTIONS_REFUSED_SPSM_NOT_SUPPORTED))";
+  "        return";
+  "    if request.mtu < L2CAP_LE_CREDIT_BASED_CONNECTION_MIN_MTU or request.mps < L2CAP_LE_CREDIT_BASED_CONNECTION_MIN_MPS or request.mps > L2CAP_LE_CREDIT_BASED_CONNECTION_MAX_MPS:";
+  "        self.send_control_frame(connection, cid, L2CAP_Credit_Based_Connection_Response(identifier=request.identifier, destination_cid=[], mtu=server.mtu, mps=server.mps, initial_credits=0, result=L2CAP_Credit_Based_Connection_Response.Result.ALL_CONNECTIONS_REFUSED_INVALID_PARAMETERS))";
+  "        return";
+  "    le_connection_channels = self.le_coc_channels.setdefault(connection.handle, {})";
+  "    if (cid_in_use := set(request.source_cid).intersection(set(le_connection_channels))):";
+  "        self.send_control_frame(connection, cid, L2CAP_Credit_Based_Connection_Response(identifier=request.identifier, mtu=server.mtu, mps=server.mps, initial_credits=0, result=L2CAP_Credit_Based_Connection_Response.Result.SOME_CONNECTIONS_REFUSED_SOURCE_CID_ALREADY_ALLOCATED, destination_cid=[]))";
+  "        return";
+  "    connection_channels = self.channels.setdefault(connection.handle, {})";
+  "    source_cids = self.find_free_le_cids(connection_channels, len(request.source_cid))";
+  "    if not source_cids:";
+  "        self.send_control_frame(connection, cid, L2CAP_Credit_Based_Connection_Response(identifier=request.identifier, destination_cid=[], mtu=server.mtu, mps=server.mps, initial_credits=server.max_credits, result=L2CAP_Credit_Based_Connection_Response.Result.SOME_CONNECTIONS_REFUSED_INSUFFICIENT_RESOURCES_AVAILABLE))";
+  "        return";
+  "    for destination_cid in request.source_cid:";
+  "        if not (source_cid := self.find_free_le_cid(connection_channels)):";
+  "            break";
+  "        channel = LeCreditBasedChannel(self, connection, request.spsm, source_cid, destination_cid, server.mtu, server.mps, request.initial_credits, request.mtu, request.mps, server.max_credits, True)";
+  "        connection_channels[source_cid] = channel";
+  "        le_connection_channels[destination_cid] = channel";
+  "        server.on_connection(channel)";
+  "    self.send_control_frame(connection, cid, L2CAP_Credit_Based_Connection_Response(identifier=request.identifier, destination_cid=source_cids, mtu=server.mtu, mps=server.mps, initial_credits=server.max_credits, result=L2CAP_Credit_Based_Connection_Response.Result.ALL_CONNECTIONS_SUCCESSFUL))"
+].
+
+(* Connection.on_att_mtu_update *)
+Definition m_Connection_on_att_mtu_update : list string := [
+  "def on_att_mtu_update(self, mtu):";
+  "    self.att_mtu = mtu";
+  "    self.emit(self.EVENT_CONNECTION_ATT_MTU_UPDATE)"
+].
+
 (* ATT_PDU.from_bytes *)
 Definition m_ATT_PDU_from_bytes : list string := [
   "@classmethod";
@@ -561,6 +739,15 @@ Definition m_Attribute_write_value : list string := [
   "    self.emit(self.EVENT_WRITE, connection, decoded_value)"
 ].
 
+(* att_mtu sites *)
+Definition m_att_mtu_sites : list string := [
+  "bumble/l2cap.py: LeCreditBasedChannel.__init__: self.att_mtu = min(mtu, peer_mtu)";
+  "bumble/l2cap.py: LeCreditBasedChannel.on_att_mtu_update: self.att_mtu = mtu";
+  "bumble/device.py: Connection.__init__: self.att_mtu = att.ATT_DEFAULT_MTU";
+  "bumble/device.py: Connection.on_att_mtu_update: self.att_mtu = mtu";
+  "bumble/gatt_server.py: Server.on_att_exchange_mtu_request: bearer.on_att_mtu_update(mtu)"
+].
+
 (* names of the modelled functions (keys of the skeleton tables) *)
 Definition k_Device_on_gatt_pdu : string := "Device.on_gatt_pdu".
 Definition k_att_request_handler : string := "_att_request_handler".
@@ -587,9 +774,19 @@ Definition k_Server_on_att_read_multiple_variable_request : string := "Server.on
 Definition k_Server_on_att_write_request : string := "Server.on_att_write_request".
 Definition k_Server_on_att_write_command : string := "Server.on_att_write_command".
 Definition k_Server_on_att_handle_value_confirmation : string := "Server.on_att_handle_value_confirmation".
+Definition k_LeCreditBasedChannel__init : string := "LeCreditBasedChannel.__init__".
+Definition k_LeCreditBasedChannel_on_connection_response : string := "LeCreditBasedChannel.on_connection_response".
+Definition k_LeCreditBasedChannel_on_enhanced_connection_response : string := "LeCreditBasedChannel.on_enhanced_connection_response".
+Definition k_LeCreditBasedChannel_on_att_mtu_update : string := "LeCreditBasedChannel.on_att_mtu_update".
+Definition k_LeCreditBasedChannel_write : string := "LeCreditBasedChannel.write".
+Definition k_LeCreditBasedChannel_process_output : string := "LeCreditBasedChannel.process_output".
+Definition k_ChannelManager_on_l2cap_le_credit_based_connection_request : string := "ChannelManager.on_l2cap_le_credit_based_connection_request".
+Definition k_ChannelManager_on_l2cap_credit_based_connection_request : string := "ChannelManager.on_l2cap_credit_based_connection_request".
+Definition k_Connection_on_att_mtu_update : string := "Connection.on_att_mtu_update".
 Definition k_ATT_PDU_from_bytes : string := "ATT_PDU.from_bytes".
 Definition k_Attribute_read_value : string := "Attribute.read_value".
 Definition k_Attribute_write_value : string := "Attribute.write_value".
+Definition k_att_mtu_sites : string := "att_mtu sites".
 
 Definition m_skeleton : list (string * list string) := [
   ("Device.on_gatt_pdu", m_Device_on_gatt_pdu);
@@ -617,9 +814,19 @@ Definition m_skeleton : list (string * list string) := [
   ("Server.on_att_write_request", m_Server_on_att_write_request);
   ("Server.on_att_write_command", m_Server_on_att_write_command);
   ("Server.on_att_handle_value_confirmation", m_Server_on_att_handle_value_confirmation);
+  ("LeCreditBasedChannel.__init__", m_LeCreditBasedChannel__init);
+  ("LeCreditBasedChannel.on_connection_response", m_LeCreditBasedChannel_on_connection_response);
+  ("LeCreditBasedChannel.on_enhanced_connection_response", m_LeCreditBasedChannel_on_enhanced_connection_response);
+  ("LeCreditBasedChannel.on_att_mtu_update", m_LeCreditBasedChannel_on_att_mtu_update);
+  ("LeCreditBasedChannel.write", m_LeCreditBasedChannel_write);
+  ("LeCreditBasedChannel.process_output", m_LeCreditBasedChannel_process_output);
+  ("ChannelManager.on_l2cap_le_credit_based_connection_request", m_ChannelManager_on_l2cap_le_credit_based_connection_request);
+  ("ChannelManager.on_l2cap_credit_based_connection_request", m_ChannelManager_on_l2cap_credit_based_connection_request);
+  ("Connection.on_att_mtu_update", m_Connection_on_att_mtu_update);
   ("ATT_PDU.from_bytes", m_ATT_PDU_from_bytes);
   ("Attribute.read_value", m_Attribute_read_value);
-  ("Attribute.write_value", m_Attribute_write_value)
+  ("Attribute.write_value", m_Attribute_write_value);
+  ("att_mtu sites", m_att_mtu_sites)
 ].
 
 (* ------------------------------------------------------------------ comparison with the current source *)
